@@ -25,6 +25,12 @@ TRUSTED_BASE = [
 
 # ------------------------------------------------------------------ streams
 
+def B_sh(cmd):
+    import subprocess
+    p = subprocess.run(cmd, shell=True, stdout=subprocess.PIPE, stderr=subprocess.STDOUT, timeout=600, check=False)
+    return p.returncode, p.stdout.decode(errors="replace")
+
+
 def corpus_programs():
     out = []
     for p in sorted(glob.glob(os.path.join(ROOT, "corpus", "**", "*.teal"), recursive=True)):
@@ -604,6 +610,11 @@ def run_c05(ctx):
 def c19_extra(ctx):
     """program-level decision logic: version flags, mixed mode, contract type, block costs for declared versions 1..8"""
     import re as _re
+    # validation of the trusted transcription Spec/AvmTables.v against PyTeal's opcode table (second source available offline)
+    rc, out = B_sh(f"/venv/bin/python {os.path.join(HERE, 'avm_crosscheck.py')}")
+    ctx["cov"]["avm_tables_vs_pyteal"] = out.strip().split("\n")[-1][:300]
+    if rc != 0:
+        ctx["broken"].append("trusted table Spec/AvmTables.v disagrees with PyTeal's opcode table: " + "; ".join(l for l in out.split("\n") if l.startswith("DISAGREE"))[:400])
     rng = ctx["rng"]
     progs = [t for _, t in corpus_programs()][:40]
     for _ in range(60 if ctx["tier"] == "quick" else 600):
